@@ -94,7 +94,8 @@ def cases(ctx):
             for k in range(n):
                 settings = rng.choice(['', 'align:left', 'position:10% line:20% size:50%',
                                        'line:0 position:20%,line-left size:60% align:start',
-                                       'vertical:rl line:5', 'align:center size:33.33%', 'region:fred'])
+                                       'vertical:rl line:5', 'align:center size:33.33%', 'region:fred',
+                                       'align:left\tposition:10%', 'line:20%  size:50%', 'position:5%\t line:1'])
                 cues.append({'start': t, 'end': t + 1500000, 'settings': settings, 'text': f'{tag}.{k} hello'})
                 t += 2000000
             yield {'kind': 'vtt2vtt', 'cues': cues}
@@ -201,9 +202,9 @@ def check(case, ctx):
         if len(cues) != len(case['cues']):
             return [{'what': 'WebVTT -> WebVTT changed the number of cues', 'got': len(cues)}]
         for c, g in zip(case['cues'], cues):
-            if ' '.join(g['settings']) != c['settings']:
+            if g['settings_raw'] != c['settings']:
                 fails.append({'what': 'cue settings not written back verbatim', 'expected': c['settings'],
-                              'got': ' '.join(g['settings'])})
+                              'got': g['settings_raw']})
         return fails[:3]
     spec = case['set']
     cs = dump.mk_caption_set(spec)
